@@ -58,8 +58,15 @@ def execute(cases, tier):
                 if content != new.get(p):
                     spec = "contradicts L1 (C08_atomic): at request %d file %s held neither its old nor its complete new content: %r" % (k, p, content[:120])
                     break
+            mf0 = updfam.model_files(m)
+            rewritten = set(mf0[1].keys()) if mf0 and mf0[0] == "ok" else set(new.keys())
             if spec is None:
                 for p, t in new.items():
+                    if p not in rewritten:
+                        if t != old[p]:
+                            spec = "contradicts L1: file %s is not part of the include tree but was modified" % p
+                            break
+                        continue
                     if t is None:
                         spec = "contradicts L1: file %s vanished" % p; break
                     if t != "" and (not t.endswith("\n") or t.endswith("\n\n")):
